@@ -159,6 +159,11 @@ class UnionMatcher(AdditiveBiMatcher):
     def is_active(self):
         return self.a.is_active() or self.b.is_active()
 
+    def reset(self):
+        self._id = None
+        self.a.reset()
+        self.b.reset()
+
     def skip_to(self, id):
         self._id = None
         ra = rb = False
@@ -382,6 +387,7 @@ class DisjunctionMaxMatcher(UnionMatcher):
         return max(self.a.block_quality(), self.b.block_quality())
 
     def skip_to_quality(self, minquality):
+        self._id = None
         a = self.a
         b = self.b
 
